@@ -67,6 +67,13 @@ def _crosshair():
     return proxy_for_type, realize, NoTracing, context_statespace
 
 
+def concrete():
+    """Context for calling sigtools on inputs that hold NO symbolic value: CrossHair's interception is
+    suspended (the same real code runs on the same path, ~20x faster); the solver's work on such a
+    path is the structure decisions before it and the call-shape queries after it."""
+    return notrace()
+
+
 def notrace():
     """Context in which CrossHair does not intercept (concrete bookkeeping, z3 queries)."""
     if MODE == 'symbolic':
